@@ -1100,6 +1100,32 @@ def run_findings(ck):
             ck.notes.append("finding %s no longer reproduces: the model/theorems (%s_full) are stale" % (fid, fid))
 
 
+def run_corpus(ck):
+    """corpus/C05/*.c: hand-written witnesses and minimised past failures; `expect: name=value ...` in the
+    leading comment are the data values C11 prescribes; an optional `fid:` marks a known finding"""
+    cc = ck.build_cproc_qbe()
+    d = os.path.join(common.VERIF, "corpus", "C05")
+    n = 0
+    for f in sorted(os.listdir(d)) if os.path.isdir(d) else []:
+        if not f.endswith(".c"):
+            continue
+        src = open(os.path.join(d, f)).read()
+        m = re.search(r"expect:\s*([^*\n]*)", src)
+        if not m:
+            continue
+        want = dict(kv.split("=") for kv in m.group(1).split())
+        fid = re.search(r"fid:\s*(\S+)", src)
+        r = subprocess.run([cc, os.path.join(d, f)], stdout=subprocess.PIPE, stderr=subprocess.PIPE, text=True)
+        got = {m2.group(1): m2.group(2) for m2 in re.finditer(r"data \$(\w+) = align \d+ \{ [wlbh] (-?\d+)", r.stdout)}
+        n += 1
+        ck.count(("corpus", f))
+        bad = {k: (got.get(k), v) for k, v in want.items() if got.get(k) != v}
+        if r.returncode != 0 or bad:
+            ck.report({"kind": "corpus", "file": "corpus/C05/" + f, "program": src, "stderr": r.stderr[-300:],
+                       "got_vs_expected": bad, "what": "corpus witness fails"}, fid=fid.group(1) if fid else None)
+    ck.cov["corpus_files"] = n
+
+
 def run(ck):
     ck.cov["rule"] = ("K-A: every (target, arithmetic type object incl. enums over every base, width none/0..66) for typepromote; "
                       "every pair x width grid for typecommonreal; every integer type x boundary values (2^k, 2^k+-1,2, 2^64-2^k...) "
@@ -1118,6 +1144,7 @@ def run(ck):
         ck.notes.append("Props.C05 does not build; searching for a failing input")
     if not ck.drv_ok:
         raise Broken("drv_c05 does not build: %s" % ck.build_log[-1500:])
+    run_corpus(ck)
     run_ka(ck)
     hard = bool(ck.violations)
     if not hard:
